@@ -1,4 +1,5 @@
 import DinoProofs.Lemmas.Scaling
+import Dino.Scaling
 
 /-!
 # The scaling action on the `Dynamics` model: parameters, states, and every term
@@ -26,13 +27,6 @@ namespace Dino.Scaling
 open Dino Dino.Dynamics
 set_option linter.unusedSectionVars false
 
-/-- ratios of the units of two non-dimensionalisations -/
-structure Scale (K : Type) where
-  l : K
-  t : K
-  m : K
-  θ : K
-
 /-- all ratios are non-zero (they are positive reals in the code) -/
 structure Scale.Valid {K : Type} [Zero K] (g : Scale K) : Prop where
   l_ne : g.l ≠ 0
@@ -43,52 +37,6 @@ structure Scale.Valid {K : Type} [Zero K] (g : Scale K) : Prop where
 section defs
 variable {K M N : Type} [Field K] [AddCommGroup M] [Module K M] [CommRing N] [Algebra K N]
 
-namespace Scale
-variable (g : Scale K)
-/-- frequency `T⁻¹` -/
-def wF : K := g.t⁻¹
-/-- velocity `L T⁻¹` -/
-def wV : K := g.l * g.t⁻¹
-/-- acceleration `L T⁻²` -/
-def wA : K := g.l * g.t⁻¹ ^ 2
-/-- specific energy `L² T⁻²` (geopotential, `R·T`) -/
-def wE : K := g.l ^ 2 * g.t⁻¹ ^ 2
-/-- gas constants / heat capacities `L² T⁻² Θ⁻¹` -/
-def wR : K := g.l ^ 2 * g.t⁻¹ ^ 2 * g.θ⁻¹
-/-- inverse area `L⁻²` -/
-def wL2 : K := g.l⁻¹ ^ 2
-/-- pressure `M L⁻¹ T⁻²` (its logarithm is the constant added to `ln p_s`) -/
-def wP : K := g.m * g.l⁻¹ * g.t⁻¹ ^ 2
-end Scale
-
-/-- the horizontal operations of a grid whose radius is `l` times larger
- (`spherical_harmonic.Grid`: `laplacian_eigenvalues = -n(n+1)/radius²`, `cos_lat_grad`,
- `div_cos_lat`, `curl_cos_lat` divide by `radius`; nothing else depends on it) -/
-def actOps (g : Scale K) (h : HOps K M N) : HOps K M N :=
-  { h with
-    laplacian := fun x => g.wL2 • h.laplacian x
-    inverseLaplacian := fun x => (g.l ^ 2) • h.inverseLaplacian x
-    lapEig := fun n => g.wL2 * h.lapEig n
-    radius := g.l * h.radius }
-
-/-- `PrimitiveEquationsSpecs.from_si` under the other scale -/
-def actPhys (g : Scale K) (ph : Phys K) : Phys K :=
-  { angularVelocity := g.wF * ph.angularVelocity
-    g := g.wA * ph.g
-    R := g.wR * ph.R
-    Rvapor := g.wR * ph.Rvapor
-    CpVapor := g.wR * ph.CpVapor
-    kappa := ph.kappa }
-
-/-- the same physical problem under the other scale -/
-def actEq (g : Scale K) (p : PrimitiveEquations K M N) : PrimitiveEquations K M N :=
-  { ops := actOps g p.ops
-    vert := p.vert
-    phys := actPhys g p.phys
-    referenceTemperature := p.referenceTemperature.map (g.θ * ·)
-    orography := g.l • p.orography
-    includeVerticalAdvection := p.includeVerticalAdvection }
-
 /-- the named hypotheses relating the two `HOps` values (validated on real `Grid`s of different
  radius by the harness) -/
 structure OpsScaled (g : Scale K) (h h' : HOps K M N) : Prop where
@@ -98,7 +46,7 @@ structure OpsScaled (g : Scale K) (h h' : HOps K M N) : Prop where
   cosLatDDlat : h'.cosLatDDlat = h.cosLatDDlat
   secLatDDlatCos2 : h'.secLatDDlatCos2 = h.secLatDDlatCos2
   laplacian : ∀ x, h'.laplacian x = g.wL2 • h.laplacian x
-  inverseLaplacian : ∀ x, h'.inverseLaplacian x = (g.l ^ 2) • h.inverseLaplacian x
+  inverseLaplacian : ∀ x, h'.inverseLaplacian x = g.wAr • h.inverseLaplacian x
   clip : h'.clip = h.clip
   lproj : h'.lproj = h.lproj
   nL : h'.nL = h.nL
@@ -155,42 +103,6 @@ theorem EqScaled.eq_actEq {g : Scale K} {p p' : PrimitiveEquations K M N} (r : E
 theorem eqScaled_actEq (g : Scale K) (p : PrimitiveEquations K M N) : EqScaled g p (actEq g p) :=
   ⟨opsScaled_actOps g p.ops, rfl, ⟨rfl, rfl, rfl, rfl, rfl, rfl⟩, rfl, rfl, rfl⟩
 
-/-- the state under the other scale: every component multiplied by the factor of its dimension,
- the constant `c` added to the constant mode of `ln p_s`, tracers unchanged -/
-def actState (g : Scale K) (c : K) (one : M) (s : State M) : State M :=
-  { vorticity := Col.smul g.wF s.vorticity
-    divergence := Col.smul g.wF s.divergence
-    temperatureVariation := Col.smul g.θ s.temperatureVariation
-    logSurfacePressure := s.logSurfacePressure + c • one
-    tracers := s.tracers }
-
-/-- a tendency under the other scale: one more inverse-time factor, no additive constant -/
-def actTend (g : Scale K) (s : State M) : State M :=
-  { vorticity := Col.smul (g.wF * g.wF) s.vorticity
-    divergence := Col.smul (g.wF * g.wF) s.divergence
-    temperatureVariation := Col.smul (g.θ * g.wF) s.temperatureVariation
-    logSurfacePressure := g.wF • s.logSurfacePressure
-    tracers := mapTracers (Col.smul g.wF) s.tracers }
-
-def actStateT (g : Scale K) (c : K) (one : M) (s : StateWithTime K M) : StateWithTime K M :=
-  { state := actState g c one s.state, simTime := g.t * s.simTime }
-
-/-- `d(sim_time)/dt` is a pure number -/
-def actTendT (g : Scale K) (s : StateWithTime K M) : StateWithTime K M :=
-  { state := actTend g s.state, simTime := s.simTime }
-
-/-- the diagnostic state under the other scale -/
-def actDiag (g : Scale K) (a : Diag N) : Diag N :=
-  { vorticity := Col.smul g.wF a.vorticity
-    divergence := Col.smul g.wF a.divergence
-    temperatureVariation := Col.smul g.θ a.temperatureVariation
-    cosLatU := (Col.smul g.wV a.cosLatU.1, Col.smul g.wV a.cosLatU.2)
-    sigmaDotExplicit := Col.smul g.wF a.sigmaDotExplicit
-    sigmaDotFull := Col.smul g.wF a.sigmaDotFull
-    cosLatGradLogSp := (g.l⁻¹ • a.cosLatGradLogSp.1, g.l⁻¹ • a.cosLatGradLogSp.2)
-    uDotGradLogSp := Col.smul g.wF a.uDotGradLogSp
-    tracers := a.tracers }
-
 /-- laws of the horizontal operations used by the scaling theorems: homogeneity of the eight
  linear operations, additivity of the three that see `ln p_s`, and the three that annihilate the
  constant field (`d/dλ 1 = cosθ d/dθ 1 = ∇² 1 = 0`).  Validated on real `Grid`s by the harness. -/
@@ -216,26 +128,33 @@ end defs
 section scalars
 variable {K : Type} [Field K] {g : Scale K}
 
-theorem wV_mul_il (hg : g.Valid) : g.wV * g.l⁻¹ = g.wF := by
-  have := hg.l_ne; simp only [Scale.wV, Scale.wF]; field_simp
-theorem il_mul_wV (hg : g.Valid) : g.l⁻¹ * g.wV = g.wF := by rw [mul_comm, wV_mul_il hg]
-theorem il_mul_l2_wF (hg : g.Valid) : g.l⁻¹ * (g.l ^ 2 * g.wF) = g.wV := by
-  have := hg.l_ne; simp only [Scale.wV, Scale.wF]; field_simp
-theorem wL2_mul_wV2 (hg : g.Valid) : g.wL2 * (g.wV * g.wV) = g.wF * g.wF := by
-  have := hg.l_ne; have := hg.t_ne; simp only [Scale.wV, Scale.wF, Scale.wL2]; field_simp
-theorem wA_eq (g : Scale K) : g.wA = g.wF * g.wV := by simp only [Scale.wA, Scale.wF, Scale.wV]; ring
-theorem wR_mul_θ (hg : g.Valid) : g.wR * g.θ = g.wE := by
-  have := hg.θ_ne; simp only [Scale.wR, Scale.wE]; field_simp
-theorem wE_mul_il (hg : g.Valid) : g.wE * g.l⁻¹ = g.wF * g.wV := by
-  have := hg.l_ne; simp only [Scale.wE, Scale.wF, Scale.wV]; field_simp
-theorem il_mul_wA (hg : g.Valid) : g.l⁻¹ * (g.wF * g.wV) = g.wF * g.wF := by
-  have := hg.l_ne; simp only [Scale.wF, Scale.wV]; field_simp
-theorem wL2_mul_wE (hg : g.Valid) : g.wL2 * g.wE = g.wF * g.wF := by
-  have := hg.l_ne; simp only [Scale.wL2, Scale.wE, Scale.wF]; field_simp
+/-- close a scalar identity between products of the factors -/
+macro "scal_eq" hg:term : tactic => `(tactic| (
+  have h1 := ($hg).l_ne; have h2 := ($hg).t_ne; have h3 := ($hg).θ_ne; have h4 := ($hg).m_ne
+  try simp only [Scale.wF, Scale.wV, Scale.wA, Scale.wE, Scale.wR, Scale.wL2, Scale.wIL, Scale.wAr,
+    Scale.wP, Scale.wRho, one_div]
+  try field_simp
+  try ring))
+
+theorem wV_mul_il (hg : g.Valid) : g.wV * g.wIL = g.wF := by scal_eq hg
+theorem il_mul_wV (hg : g.Valid) : g.wIL * g.wV = g.wF := by scal_eq hg
+theorem il_mul_l2_wF (hg : g.Valid) : g.wIL * (g.wAr * g.wF) = g.wV := by scal_eq hg
+theorem wL2_mul_wV2 (hg : g.Valid) : g.wL2 * (g.wV * g.wV) = g.wF * g.wF := by scal_eq hg
+theorem wA_eq (hg : g.Valid) : g.wA = g.wF * g.wV := by scal_eq hg
+theorem wR_mul_θ (hg : g.Valid) : g.wR * g.θ = g.wE := by scal_eq hg
+theorem wE_mul_il (hg : g.Valid) : g.wE * g.wIL = g.wF * g.wV := by scal_eq hg
+theorem il_mul_wA (hg : g.Valid) : g.wIL * (g.wF * g.wV) = g.wF * g.wF := by scal_eq hg
+theorem wL2_mul_wE (hg : g.Valid) : g.wL2 * g.wE = g.wF * g.wF := by scal_eq hg
 theorem wR_ne (hg : g.Valid) : g.wR ≠ 0 := by
   simp [Scale.wR, hg.l_ne, hg.t_ne, hg.θ_ne]
 theorem wF_ne (hg : g.Valid) : g.wF ≠ 0 := by
   simp [Scale.wF, hg.t_ne]
+theorem wE_ne (hg : g.Valid) : g.wE ≠ 0 := by
+  simp [Scale.wE, hg.l_ne, hg.t_ne]
+theorem wRho_ne (hg : g.Valid) : g.wRho ≠ 0 := by
+  simp [Scale.wRho, hg.l_ne, hg.m_ne]
+theorem wP_ne (hg : g.Valid) : g.wP ≠ 0 := by
+  simp [Scale.wP, hg.l_ne, hg.m_ne, hg.t_ne]
 end scalars
 
 /-! ## the derived grid operations -/
@@ -244,8 +163,8 @@ variable {K M N : Type} [Field K] [AddCommGroup M] [Module K M] [CommRing N] [Al
 variable {g : Scale K} {h : HOps K M N}
 
 theorem inv_radius (g : Scale K) (h : HOps K M N) :
-    (1 / (actOps g h).radius : K) = g.l⁻¹ * (1 / h.radius) := by
-  simp only [actOps, one_div, mul_inv]
+    (1 / (actOps g h).radius : K) = g.wIL * (1 / h.radius) := by
+  simp only [actOps, Scale.wIL, one_div, mul_inv]
 
 theorem opsLaws_actOps (g : Scale K) (hl : OpsLaws h) : OpsLaws (actOps g h) where
   toNodal_smul := hl.toNodal_smul
@@ -257,7 +176,7 @@ theorem opsLaws_actOps (g : Scale K) (hl : OpsLaws h) : OpsLaws (actOps g h) whe
     show g.wL2 • h.laplacian (a • x) = a • g.wL2 • h.laplacian x
     rw [hl.laplacian_smul, smul_comm]
   inverseLaplacian_smul := fun a x => by
-    show (g.l ^ 2) • h.inverseLaplacian (a • x) = a • (g.l ^ 2) • h.inverseLaplacian x
+    show g.wAr • h.inverseLaplacian (a • x) = a • g.wAr • h.inverseLaplacian x
     rw [hl.inverseLaplacian_smul, smul_comm]
   clip_smul := hl.clip_smul
   dDlon_add := hl.dDlon_add
@@ -272,7 +191,7 @@ theorem opsLaws_actOps (g : Scale K) (hl : OpsLaws h) : OpsLaws (actOps g h) whe
     rw [hl.laplacian_one, smul_zero]
 
 theorem cosLatGrad_act (hl : OpsLaws h) (cl : Bool) (a : K) (x : M) :
-    (actOps g h).cosLatGrad cl (a • x) = (g.l⁻¹ * a) • h.cosLatGrad cl x := by
+    (actOps g h).cosLatGrad cl (a • x) = (g.wIL * a) • h.cosLatGrad cl x := by
   unfold HOps.cosLatGrad
   rw [inv_radius]
   simp only [actOps]
@@ -293,7 +212,7 @@ theorem laplacian_add_const (hl : OpsLaws h) (c : K) (x : M) :
   rw [hl.laplacian_add, hl.laplacian_smul, hl.laplacian_one, smul_zero, add_zero]
 
 theorem divCosLat_act (hl : OpsLaws h) (cl : Bool) (a : K) (v : M × M) :
-    (actOps g h).divCosLat cl (a • v) = (g.l⁻¹ * a) • h.divCosLat cl v := by
+    (actOps g h).divCosLat cl (a • v) = (g.wIL * a) • h.divCosLat cl v := by
   unfold HOps.divCosLat
   rw [inv_radius]
   simp only [actOps, Prod.smul_fst, Prod.smul_snd]
@@ -303,7 +222,7 @@ theorem divCosLat_act (hl : OpsLaws h) (cl : Bool) (a : K) (v : M × M) :
     congr 1 <;> ring
 
 theorem curlCosLat_act (hl : OpsLaws h) (cl : Bool) (a : K) (v : M × M) :
-    (actOps g h).curlCosLat cl (a • v) = (g.l⁻¹ * a) • h.curlCosLat cl v := by
+    (actOps g h).curlCosLat cl (a • v) = (g.wIL * a) • h.curlCosLat cl v := by
   unfold HOps.curlCosLat
   rw [inv_radius]
   simp only [actOps, Prod.smul_fst, Prod.smul_snd]
@@ -315,13 +234,13 @@ theorem curlCosLat_act (hl : OpsLaws h) (cl : Bool) (a : K) (v : M × M) :
 theorem cosLatVector_act (hg : g.Valid) (hl : OpsLaws h) (cl : Bool) (z d : M) :
     (actOps g h).cosLatVector cl (g.wF • z) (g.wF • d) = g.wV • h.cosLatVector cl z d := by
   unfold HOps.cosLatVector
-  have e1 : ∀ x : M, (actOps g h).inverseLaplacian (g.wF • x) = (g.l ^ 2 * g.wF) • h.inverseLaplacian x := by
+  have e1 : ∀ x : M, (actOps g h).inverseLaplacian (g.wF • x) = (g.wAr * g.wF) • h.inverseLaplacian x := by
     intro x; simp only [actOps, hl.inverseLaplacian_smul, smul_smul]
   simp only [e1, cosLatGrad_act hl, il_mul_l2_wF hg, HOps.kCross, Prod.smul_fst, Prod.smul_snd,
     Prod.smul_mk, smul_add, smul_neg]
 
 theorem divSecLat_act (hl : OpsLaws h) (a : K) (m n : N) :
-    (actOps g h).divSecLat (a • m) (a • n) = (g.l⁻¹ * a) • h.divSecLat m n := by
+    (actOps g h).divSecLat (a • m) (a • n) = (g.wIL * a) • h.divSecLat m n := by
   unfold HOps.divSecLat
   have : ((actOps g h).toModal (a • m * (actOps g h).sec2Lat), (actOps g h).toModal (a • n * (actOps g h).sec2Lat))
       = a • (h.toModal (m * h.sec2Lat), h.toModal (n * h.sec2Lat)) := by
@@ -351,14 +270,14 @@ theorem computeDiagnosticState_act (hg : g.Valid) (hl : OpsLaws h) (v : Vert K) 
       = Col.smul g.wV (x.map fun p => h.toNodal p.2) :=
     fun x => map_smul_of _ _ g.wV g.wV (fun u => hl.toNodal_smul g.wV u.2) x
   have hG : (actOps g h).cosLatGrad false (s.logSurfacePressure + c • h.oneModal)
-      = g.l⁻¹ • h.cosLatGrad false s.logSurfacePressure := by
+      = g.wIL • h.cosLatGrad false s.logSurfacePressure := by
     have := cosLatGrad_act (g := g) hl false 1 (s.logSurfacePressure + c • h.oneModal)
     rw [one_smul, mul_one] at this
     rw [this, cosLatGrad_add_const hl]
   unfold computeDiagnosticState
   simp only [actState, hN, hclv, hU1, hU2, hG, Prod.smul_fst, Prod.smul_snd]
   have hudg : ∀ (u w : List N) (X1 X2 : N),
-      List.zipWith (fun u w => u * g.l⁻¹ • X1 * h.sec2Lat + w * g.l⁻¹ • X2 * h.sec2Lat)
+      List.zipWith (fun u w => u * g.wIL • X1 * h.sec2Lat + w * g.wIL • X2 * h.sec2Lat)
           (Col.smul g.wV u) (Col.smul g.wV w)
         = Col.smul g.wF (List.zipWith (fun u w => u * X1 * h.sec2Lat + w * X2 * h.sec2Lat) u w) := by
     intro u w X1 X2
